@@ -31,6 +31,8 @@ func (in *Instance) CheckOwnership() []string {
 	for _, a := range in.Con.Attrs["o-mutates"] {
 		for _, w := range strings.Fields(a) {
 			allowed[w] = true
+			allowed[Mark+w] = true      // operand parameters of a wrapper
+			allowed[Mark+"p_"+w] = true // ... passed by address
 		}
 	}
 	var out []string
@@ -54,6 +56,17 @@ func isRefContainer(t types.Type) bool {
 		return true
 	}
 	return false
+}
+
+// isRef: values of the type are references to memory (pointer, slice, map).
+func isRef(t types.Type) bool {
+	if t == nil {
+		return false
+	}
+	if _, ok := t.Underlying().(*types.Pointer); ok {
+		return true
+	}
+	return isRefContainer(t)
 }
 
 func (in *Instance) helperAttr(call *ast.CallExpr, attr string) ([]string, bool) {
@@ -89,7 +102,7 @@ func (in *Instance) ownershipOf(fd *ast.FuncDecl, allowed map[string]bool) []str
 	owned := map[types.Object]bool{}
 	ast.Inspect(fd, func(n ast.Node) bool {
 		if id, ok := n.(*ast.Ident); ok {
-			if o, ok := info.Defs[id].(*types.Var); ok && o != nil && !params[o] && !o.IsField() && isRefContainer(o.Type()) {
+			if o, ok := info.Defs[id].(*types.Var); ok && o != nil && !params[o] && !o.IsField() && isRef(o.Type()) {
 				owned[o] = true
 			}
 		}
@@ -136,12 +149,19 @@ func (in *Instance) ownershipOf(fd *ast.FuncDecl, allowed map[string]bool) []str
 			return o != nil && owned[o]
 		case *ast.CompositeLit:
 			return true
+		case *ast.UnaryExpr:
+			if x.Op == token.AND {
+				if _, ok := ast.Unparen(x.X).(*ast.CompositeLit); ok {
+					return true
+				}
+			}
+			return false
 		case *ast.SliceExpr:
 			return fresh(x.X)
 		case *ast.CallExpr:
 			if id, ok := ast.Unparen(x.Fun).(*ast.Ident); ok {
 				switch id.Name {
-				case "make":
+				case "make", "new":
 					if _, isB := info.Uses[id].(*types.Builtin); isB {
 						return true
 					}
@@ -152,6 +172,13 @@ func (in *Instance) ownershipOf(fd *ast.FuncDecl, allowed map[string]bool) []str
 				}
 				if _, ok := in.helperAttr(x, "o-result-fresh"); ok {
 					return true
+				}
+				// the new value of an lvalue operand produced by a generator function
+				// that is itself under the no-sharing obligation
+				if h := in.Callees[id.Name]; h != nil {
+					if gc := in.B.Contracts.Funcs[h.Callee]; gc != nil && len(gc.Attrs["o-no-sharing"]) > 0 {
+						return true
+					}
 				}
 			}
 			// conversions: []rune(s), []byte(s) of a string are fresh; T(x) keeps x's ownership
@@ -252,6 +279,13 @@ func (in *Instance) ownershipOf(fd *ast.FuncDecl, allowed map[string]bool) []str
 				switch x := e.(type) {
 				case *ast.Ident:
 					return true, ""
+				case *ast.StarExpr:
+					if id, ok := ast.Unparen(x.X).(*ast.Ident); ok {
+						if o := info.Uses[id]; o != nil && params[o] && allowed[id.Name] {
+							return true, ""
+						}
+					}
+					return false, exprText(e)
 				case *ast.IndexExpr:
 					return writable(x.X)
 				case *ast.SelectorExpr:
@@ -267,6 +301,14 @@ func (in *Instance) ownershipOf(fd *ast.FuncDecl, allowed map[string]bool) []str
 			o := info.Uses[id]
 			if o != nil && params[o] && allowed[id.Name] {
 				return true, ""
+			}
+		}
+		// the cell an allowed pointer parameter points to (an lvalue operand passed by address)
+		if st, ok := e.(*ast.StarExpr); ok {
+			if id, ok := ast.Unparen(st.X).(*ast.Ident); ok {
+				if o := info.Uses[id]; o != nil && params[o] && allowed[id.Name] {
+					return true, ""
+				}
 			}
 		}
 		if fresh(e) {
@@ -286,11 +328,56 @@ func (in *Instance) ownershipOf(fd *ast.FuncDecl, allowed map[string]bool) []str
 			report(lhs.Pos(), "an element of %s, which this function does not own, is written", what)
 		}
 	}
+	noSharing := len(in.Con.Attrs["o-no-sharing"]) > 0
+	rootOf := func(e ast.Expr) types.Object {
+		for {
+			switch x := ast.Unparen(e).(type) {
+			case *ast.Ident:
+				if o := info.Uses[x]; o != nil {
+					return o
+				}
+				return info.Defs[x]
+			case *ast.IndexExpr:
+				e = x.X
+			case *ast.SelectorExpr:
+				e = x.X
+			case *ast.StarExpr:
+				e = x.X
+			case *ast.SliceExpr:
+				e = x.X
+			default:
+				return nil
+			}
+		}
+	}
 	ast.Inspect(fd, func(n ast.Node) bool {
 		switch s := n.(type) {
 		case *ast.AssignStmt:
 			for _, l := range s.Lhs {
 				checkElemWrite(l)
+			}
+			// o-no-sharing: a reference stored into the destination (a parameter, or
+			// anything reached through an index, field or pointer) is freshly
+			// allocated, nil, or a re-slicing of what the destination held itself
+			if noSharing && len(s.Lhs) == len(s.Rhs) {
+				for i, l := range s.Lhs {
+					r := s.Rhs[i]
+					if !isRef(info.TypeOf(r)) {
+						continue
+					}
+					lo := rootOf(l)
+					_, plainLocal := ast.Unparen(l).(*ast.Ident)
+					if plainLocal && lo != nil && !params[lo] {
+						continue // a local variable: tracked by the ownership of what it is later stored into
+					}
+					if fresh(r) {
+						continue
+					}
+					if sl, ok := ast.Unparen(r).(*ast.SliceExpr); ok && lo != nil && rootOf(sl.X) == lo {
+						continue
+					}
+					report(s.Pos(), "the reference %s, which is neither freshly allocated nor nil, is stored into %s: the copy would share memory", exprText(r), exprText(l))
+				}
 			}
 		case *ast.IncDecStmt:
 			checkElemWrite(s.X)
